@@ -59,10 +59,10 @@ Proof. reflexivity. Qed.
 Definition hdr_off (ncol nrefl : Z) : Z := ncol * nrefl + 21.
 
 (* the header offset survives, through the 32-bit field or through the 64-bit escape *)
-Lemma read_first_first20 : forall ncol nrefl, 0 <= ncol -> 0 <= nrefl -> hdr_off ncol nrefl < 2 ^ 63 ->
-  read_first (first20 ncol nrefl) = Some (true, hdr_off ncol nrefl).
+Lemma read_first_raw_first20 : forall ncol nrefl, 0 <= ncol -> 0 <= nrefl -> hdr_off ncol nrefl < 2 ^ 63 ->
+  read_first_raw (first20 ncol nrefl) = Some (true, hdr_off ncol nrefl).
 Proof.
-  intros ncol nrefl Hc Hr Hlt. unfold hdr_off in *. unfold read_first, first20.
+  intros ncol nrefl Hc Hr Hlt. unfold hdr_off in *. unfold read_first_raw, first20.
   set (real := ncol * nrefl + 21) in *.
   assert (Hreal : 21 <= real) by (unfold real; nia).
   destruct (Z.ltb_spec INT32_MAX real) as [Hbig|Hsmall]; unfold INT32_MAX in *.
@@ -85,10 +85,10 @@ Definition first20_swapped (ncol nrefl : Z) : list Z :=
   let f := first20 ncol nrefl in
   firstn 4 f ++ rev (firstn 4 (skipn 4 f)) ++ [17; 17; 0; 0] ++ rev (firstn 8 (skipn 12 f)).
 
-Lemma read_first_swapped20 : forall ncol nrefl, 0 <= ncol -> 0 <= nrefl -> hdr_off ncol nrefl < 2 ^ 63 ->
-  read_first (first20_swapped ncol nrefl) = Some (false, hdr_off ncol nrefl).
+Lemma read_first_raw_swapped20 : forall ncol nrefl, 0 <= ncol -> 0 <= nrefl -> hdr_off ncol nrefl < 2 ^ 63 ->
+  read_first_raw (first20_swapped ncol nrefl) = Some (false, hdr_off ncol nrefl).
 Proof.
-  intros ncol nrefl Hc Hr Hlt. unfold hdr_off in *. unfold read_first, first20_swapped, first20.
+  intros ncol nrefl Hc Hr Hlt. unfold hdr_off in *. unfold read_first_raw, first20_swapped, first20.
   set (real := ncol * nrefl + 21) in *.
   assert (Hreal : 21 <= real) by (unfold real; nia).
   destruct (Z.ltb_spec INT32_MAX real) as [Hbig|Hsmall]; unfold INT32_MAX in *.
@@ -107,6 +107,35 @@ Proof.
     destruct (Z.eqb_spec real (-1)); [lia|reflexivity].
 Qed.
 
+Lemma off_ok_hdr_off : forall ncol nrefl, 0 <= ncol -> 0 <= nrefl -> hdr_off ncol nrefl <= HDR_OFF_MAX ->
+  off_ok (hdr_off ncol nrefl) = true /\ hdr_off ncol nrefl < 2 ^ 63.
+Proof.
+  intros ncol nrefl Hc Hr Hlt. unfold off_ok, hdr_off, HDR_OFF_MAX in *.
+  change (2 ^ 63) with 9223372036854775808. split; [|lia].
+  apply andb_true_intro; split; [apply Z.leb_le; nia|apply Z.leb_le; exact Hlt].
+Qed.
+Lemma read_first_first20 : forall ncol nrefl, 0 <= ncol -> 0 <= nrefl -> hdr_off ncol nrefl <= HDR_OFF_MAX ->
+  read_first (first20 ncol nrefl) = Some (true, hdr_off ncol nrefl).
+Proof.
+  intros ncol nrefl Hc Hr Hlt. destruct (off_ok_hdr_off ncol nrefl Hc Hr Hlt) as [Hok H63].
+  unfold read_first. rewrite (read_first_raw_first20 ncol nrefl Hc Hr H63), Hok. reflexivity.
+Qed.
+Lemma read_first_swapped20 : forall ncol nrefl, 0 <= ncol -> 0 <= nrefl -> hdr_off ncol nrefl <= HDR_OFF_MAX ->
+  read_first (first20_swapped ncol nrefl) = Some (false, hdr_off ncol nrefl).
+Proof.
+  intros ncol nrefl Hc Hr Hlt. destruct (off_ok_hdr_off ncol nrefl Hc Hr Hlt) as [Hok H63].
+  unfold read_first. rewrite (read_first_raw_swapped20 ncol nrefl Hc Hr H63), Hok. reflexivity.
+Qed.
+(* what the repaired reader accepts can be turned into a byte position without overflow *)
+Lemma read_first_offset_range : forall b same off, read_first b = Some (same, off) ->
+  21 <= off /\ 0 <= off - 1 - 20 /\ 4 * (off - 1) < 2 ^ 63 /\ 4 * (off - 1 - 20) < 2 ^ 63.
+Proof.
+  intros b same off H. unfold read_first in H. destruct (read_first_raw b) as [[s o]|]; [|discriminate].
+  destruct (off_ok o) eqn:E; [|discriminate]. injection H as _ <-.
+  unfold off_ok, HDR_OFF_MAX in E. apply andb_prop in E. destruct E as [E1 E2].
+  apply Z.leb_le in E1. apply Z.leb_le in E2. change (2 ^ 63) with 9223372036854775808. lia.
+Qed.
+
 Lemma first20_len : forall c r, length (first20 c r) = 20%nat.
 Proof. intros; unfold first20. destruct (INT32_MAX <? c * r + 21); reflexivity. Qed.
 Lemma first20_swapped_len : forall c r, length (first20_swapped c r) = 20%nat.
@@ -119,7 +148,7 @@ Proof. intros A l r n ->. rewrite firstn_app, Nat.sub_diag, firstn_all. cbn. app
 
 (* a file written by gemmi reads back: header offset and every data word, bit for bit *)
 Lemma read_prefix_native : forall ncol nrefl d rest,
-  0 <= ncol -> 0 <= nrefl -> hdr_off ncol nrefl < 2 ^ 63 -> Z.of_nat (length d) = ncol * nrefl ->
+  0 <= ncol -> 0 <= nrefl -> hdr_off ncol nrefl <= HDR_OFF_MAX -> Z.of_nat (length d) = ncol * nrefl ->
   read_prefix (file_prefix ncol nrefl d ++ rest) = Some (hdr_off ncol nrefl, d, rest).
 Proof.
   intros ncol nrefl d rest Hc Hr Hlt Hd. unfold read_prefix, file_prefix.
@@ -133,7 +162,7 @@ Qed.
 
 (* the byte-swapped file reads to the same offset and the same data *)
 Lemma read_prefix_swapped : forall ncol nrefl d rest,
-  0 <= ncol -> 0 <= nrefl -> hdr_off ncol nrefl < 2 ^ 63 -> Z.of_nat (length d) = ncol * nrefl ->
+  0 <= ncol -> 0 <= nrefl -> hdr_off ncol nrefl <= HDR_OFF_MAX -> Z.of_nat (length d) = ncol * nrefl ->
   read_prefix (file_prefix_swapped ncol nrefl d ++ rest) = Some (hdr_off ncol nrefl, d, rest).
 Proof.
   intros ncol nrefl d rest Hc Hr Hlt Hd. unfold read_prefix, file_prefix_swapped.
